@@ -190,6 +190,12 @@ def numeric_edges():
             x = z + str(n)
             out += ["%s.0" % x, "1.%s" % x, "%s!1.0" % x, "1.0a%s" % x, "1.0b%s" % x, "1.0rc%s" % x, "1.0.post%s" % x, "1.0-%s" % x,
                     "1.0.dev%s" % x, "1.0+%s" % x, "1.0+a.%s" % x, "1.0+%s.a" % x, "1.0a%s.post%s.dev%s+%s" % (x, x, x, x), "1.0+a%s" % x]
+    # long zero paddings of representable numbers (value fits, text is long)
+    for n in [0, 1, 7, 2 ** 32 - 1]:
+        for z in ("0" * 8, "0" * 12, "0" * 40):
+            x = z + str(n)
+            out += ["%s.0" % x, "1.%s" % x, "%s!1.0" % x, "1.0a%s" % x, "1.0rc%s" % x, "1.0.post%s" % x, "1.0-%s" % x, "1.0.dev%s" % x, "1.0+%s" % x,
+                    "1.0+a.%s" % x, "v%s.%s.%s" % (x, x, x)]
     return out
 
 
